@@ -3,8 +3,8 @@ from . import runner
 
 
 def checks():
-    from .checks import ir, mem, intv
-    cs = [ir.C09(), ir.C10(), ir.C11(), ir.C12(), ir.C13(), mem.C14(), mem.C15(), mem.C16(), mem.C18(), intv.C17()]
+    from .checks import ir, mem, intv, rv
+    cs = [ir.C09(), ir.C10(), ir.C11(), ir.C12(), ir.C13(), mem.C14(), mem.C15(), mem.C16(), mem.C18(), intv.C17(), rv.C01(), rv.C02(), rv.C25()]
     return {c.pid: c for c in cs}
 
 
